@@ -16,7 +16,7 @@ Definition run_case (c : case) : verdict :=
                             (s_opts entry) (s_cwd entry) (s_umask entry) (s_traps entry)
                             (user_fds k (s_fds entry))) with
             | d :: _ => (30 + d)%N                (* entry view differs: component d *)
-            | [] => 39%N                          (* a descriptor >= 10 without close-on-exec *)
+            | [] => 39%N                          (* unreachable *)
             end
           else if snap_eqb entry child_end then 99%N   (* the mutators had no effect: vacuous case *)
           else 0%N
